@@ -32,7 +32,7 @@ def run(tier, seed):
     # edges of loaded documents are written back at offsets computed by these two functions (contracts shared with C03)
     serial = ([os.path.join(VERIF, "contracts", f) for f in ("node_port.py", "tys.py", "ops.py", "utils.py", "base.py", "serial.py")],
               ["hugr.hugr.base._order_port_offset", "hugr.hugr.base.Hugr._constrain_offset"])
-    standard_flow(res, FILES2, targets(), None, bounded_modules=[("bounded.c05", 180, 900)], more=[serial])
+    standard_flow(res, FILES2, targets(), None, bounded_modules=[("bounded.c05", 900, 1800)], more=[serial])
     res.level = "other"
     res.explanation = ("For every class of the data model (6 type parameters, 6 type arguments, 11 types incl. the sugar sums, general sum / extension values, all 21 serialized "
                        "operation kinds incl. sugar tags, Custom and ExtOp) the composition deserialize(_to_serial(x)) is executed symbolically on the real bodies and shown to return an "
